@@ -10,8 +10,12 @@ From Coq Require Import List NArith ZArith Arith Bool Lia.
 Import ListNotations.
 From NV Require Import Gen.FSTreeConsts FSTree.Wire FSTree.Range.
 
-Definition bytes_eqb (a b : bytes) : bool :=
-  if list_eq_dec N.eq_dec a b then true else false.
+Fixpoint bytes_eqb (a b : bytes) : bool :=
+  match a, b with
+  | [], [] => true
+  | x :: a', y :: b' => (x =? y)%N && bytes_eqb a' b'
+  | _, _ => false
+  end.
 
 (* ---- combined record ------------------------------------------------------- *)
 
@@ -173,8 +177,8 @@ Definition read_object_ dec chunk (cap : nat) (id file : bytes) : ores :=
        end.
 
 (* readObject: copy into the caller's buffer; what does not fit goes in front of the stream *)
-Definition read_object dec chunk (cap : nat) (id file : bytes) : ores :=
-  match read_object_ dec chunk cap id file with
+Definition copy_out (cap : nat) (h : ores) : ores :=
+  match h with
   | OOk initial stream =>
     let st := match stream with Some s => s | None => RNop end in
     if cap <? length initial then OOk (firstn cap initial) (Some (RPre (skipn cap initial) st))
@@ -182,38 +186,43 @@ Definition read_object dec chunk (cap : nat) (id file : bytes) : ores :=
   | r => r
   end.
 
+Definition read_object dec chunk (cap : nat) (id file : bytes) : ores :=
+  copy_out cap (read_object_ dec chunk cap id file).
+
 (* ---- the three range entry points, from the file contents ----------------------- *)
 
 (* GetRangeStream / ReadPayloadRange *)
-Definition get_range_stream dec chunk cap (id file : bytes) (mode a b : N) : shres :=
-  match read_object_ dec chunk cap id file with
+Definition grs_of_head (h : ores) (pl : plres) (sk : seekres) (mode a b : N) : shres :=
+  match h with
   | OErr => ShErr EOther
   | OPanic => ShPanic
-  | OOk prefix stream => range_of_head prefix stream mode a b
+  | OOk prefix stream => range_with pl sk prefix stream mode a b
   end.
+
+Definition head_pl (h : ores) : plres := match h with OOk p _ => header_payload_len p | _ => PlErr end.
+Definition head_sk (h : ores) : seekres := match h with OOk p _ => seek_field p f_obj_payload | _ => SErr end.
+
+Definition get_range_stream dec chunk cap (id file : bytes) (mode a b : N) : shres :=
+  let h := read_object_ dec chunk cap id file in
+  grs_of_head h (head_pl h) (head_sk h) mode a b.
 
 (* ReadObjectParts: Raw = head buffer followed by the rest of the object binary *)
 Inductive pres := PRaw (head : bytes) (r : rdr) | PRange (r : shres).
 
-Definition read_object_parts dec chunk cap (id file : bytes) (mode a b : N) : pres :=
-  match read_object dec chunk cap id file with
+Definition rop_of_head (h : ores) (pl : plres) (sk : seekres) (mode a b : N) : pres :=
+  match h with
   | OErr => PRange (ShErr EOther)
   | OPanic => PRange ShPanic
   | OOk head None => PRange ShPanic
   | OOk head (Some st) =>
-    match get_len_field_bounds head f_obj_hdr with
-    | BErr => PRange (ShErr EOther)
-    | BMissing =>
-      if partial_range mode a b then
-        (* hdrBin = buf[0:0]; payload length 0 *)
-        PRange (shift_stream_to_range head 0%N mode a b (Some st))
+    match pl with
+    | PlErr => PRange (ShErr EOther)
+    | PlOk pldLen _ =>
+      if partial_range mode a b then PRange (shift_with sk head pldLen mode a b (Some st))
       else PRaw head st
-    | BOk _ vfrom to =>
-      match get_uint64_field (firstn (to - vfrom) (skipn vfrom head)) f_hdr_pldlen with
-      | UErr => PRange (ShErr EOther)
-      | UOk pldLen =>
-        if partial_range mode a b then PRange (shift_stream_to_range head pldLen mode a b (Some st))
-        else PRaw head st
-      end
     end
   end.
+
+Definition read_object_parts dec chunk cap (id file : bytes) (mode a b : N) : pres :=
+  let h := read_object dec chunk cap id file in
+  rop_of_head h (head_pl h) (head_sk h) mode a b.
